@@ -261,6 +261,33 @@ def _killed_result(prop, idx, why, failures=None):
                 paths=0, solver_s=0.0, functions=[], files=files, wall_s=0.0, notes=[], exhaustive=False, killed=True)
 
 
+def _cpu_seconds(pid):
+    """user + system CPU seconds of a process (all its threads, plus children it has waited for), or None"""
+    try:
+        f = open("/proc/%d/stat" % pid).read().rsplit(")", 1)[1].split()
+        return sum(int(x) for x in f[11:15]) / float(os.sysconf("SC_CLK_TCK"))
+    except Exception:
+        return None
+
+
+def _over_limit(pr, t0, lim):
+    """a unit's time limit counts work, not waiting: past `lim` wall-clock seconds the unit is stopped once it has also used `lim`
+    CPU seconds, or -- when it has not -- once the wall clock passes `lim` times the load factor of the machine (on an idle machine
+    that is `lim` itself: a unit that hangs without using CPU is stopped at once; on a machine whose every core is taken several
+    times over, a unit that is merely waiting for a core is not declared dead)"""
+    wall = time.time() - t0
+    if wall <= lim:
+        return False
+    cpu = _cpu_seconds(pr.pid)
+    if cpu is None or cpu > lim:
+        return True
+    try:
+        load = os.getloadavg()[0] / float(os.cpu_count() or 1)
+    except OSError:
+        load = 0.0
+    return wall > lim * max(1.0, min(20.0, 1.5 * load))
+
+
 def run_units(prop, tier, seed, only=None, jobs=None):
     specs = load_property(prop)
     todo = [(prop, i, tier, seed) for i, s in enumerate(specs)
@@ -309,7 +336,7 @@ def run_units(prop, tier, seed, only=None, jobs=None):
                 results[a[1]] = _killed_result(a[0], a[1], "unit process exited with code %s without a result (memory limit?)" % pr.exitcode,
                                                early.get(a[1]))
                 continue
-            if time.time() - t0 > lim:
+            if _over_limit(pr, t0, lim):
                 pr.kill()
                 pr.join(5)
                 results[a[1]] = _killed_result(a[0], a[1], "unit exceeded its time limit of %d s and was stopped" % lim, early.get(a[1]))
